@@ -822,7 +822,7 @@ PROPS['C11'] = dict(
     gen=lambda rng, tier: gen.fault_scenario(rng, size=tier),
     p_cmds={'r', 'c', 'ram', 'w', 'd', 'snap', 'alive', 'restart', 'counts', 'settle'},
     oracle_cmds={'r', 'c', 'ram', 'states'}, py_oracle=oracle_c11,
-    count={'quick': 120, 'thorough': 1500}, timeout=2400,
+    count={'quick': 120, 'thorough': 1000}, timeout=2400,
     nontrivial=lambda lines: any(l.startswith('fault') for l in lines),
     features=lambda lines: {' '.join(l.split()[:2] + l.split()[3:5]) for l in lines if l.startswith('fault')} |
     {'op under fault: ' + lines[i + 1].split()[0] for i, l in enumerate(lines[:-1]) if l.startswith('fault')},
